@@ -921,6 +921,17 @@ func Run(c *Case) *Obs {
 				}
 				time.Sleep(200 * time.Microsecond)
 			}
+		case "await_req": // ["await_req", k, ms]: until the peer has seen a request of caller k
+			deadline := time.Now().Add(time.Duration(num(arg(2))) * time.Millisecond)
+			for p != nil {
+				p.mu.Lock()
+				_, ok := p.reqs[num(arg(1))]
+				p.mu.Unlock()
+				if ok || time.Now().After(deadline) {
+					break
+				}
+				time.Sleep(200 * time.Microsecond)
+			}
 		case "await_svc": // ["await_svc", n, ms]: until the real service has received n requests
 			deadline := time.Now().Add(time.Duration(num(arg(2))) * time.Millisecond)
 			for {
